@@ -35,7 +35,8 @@ def main():
             ctx.gate()
             mod.run(ctx)
             if a.tier == 'thorough' and getattr(mod, 'COQCHK', None) and not any(not o['ok'] for o in ctx.obligations):
-                ctx.coqchk(mod.COQCHK)
+                for m_ in ([mod.COQCHK] if isinstance(mod.COQCHK, str) else list(mod.COQCHK)):
+                    ctx.coqchk(m_)
     except Exception as ex:
         ctx.obligation('harness-internal-error', False, 'harness', traceback.format_exc()[-2000:])
     return ctx.finish()
